@@ -615,11 +615,17 @@ impl ZiPatch {
                                     // reverse reading crc32
                                     file.seek(SeekFrom::Current(-4))?;
 
-                                    let mut data: Vec<u8> =
-                                        Vec::with_capacity(fop.file_size as usize);
+                                    // the size comes from the patch, so nothing is reserved up front
+                                    let mut data: Vec<u8> = Vec::new();
 
                                     while data.len() < fop.file_size as usize {
-                                        data.append(&mut read_data_block_patch(&mut file).unwrap());
+                                        let mut block = read_data_block_patch(&mut file)
+                                            .ok_or(PatchError::ParseError)?;
+                                        if block.is_empty() {
+                                            // a block that adds nothing would never let us reach the file size
+                                            return Err(PatchError::ParseError);
+                                        }
+                                        data.append(&mut block);
                                     }
 
                                     // re-apply crc32
